@@ -128,6 +128,16 @@ Definition rdecode (H : string -> string) (dec : string -> option json) (L : lis
                 | Some t, Some (JArr [_; v]) => Some ((H s, RElement v) :: t)
                 | _, _ => None end) (Some []) L.
 
+(* the specification's rule for the digest algorithm: the name under _sd_alg; "sha-256" when the claim is absent *)
+Definition ref_alg_name (payload : json) : option string :=
+  match payload with
+  | JObj kvs => match obj_get "_sd_alg" kvs with
+                | Some (JStr a) => Some a
+                | Some _ => None
+                | None => Some "sha-256" end
+  | _ => Some "sha-256"
+  end.
+
 Definition ref_verify (H : string -> string) (dec : string -> option json) (payload : json) (L : list string) : option json :=
   match rdecode H dec L with
   | None => None
